@@ -20,7 +20,7 @@ def run(chk, replay=None):
     thorough = chk.tier == 'thorough'
     chk.rule = ("names: generated identifiers (dotted, '$'-prefixed, Unicode, empty components) x replacement strings; "
                 "dictionary: all strings of length <= %d over 40 symbols through the implementation; non-trivial = distinct (replacement, name) pairs with a non-empty name" % (3 if thorough else 2))
-    repls = [b'REDACTED', b'X', b'', b'r.e.p', 'ré"\\'.encode(), b'REDACTED_0000000000000000']
+    repls = [b'REDACTED', b'X', b'', b'r.e.p', 'ré"\\'.encode(), b'REDACTED_0000000000000000', b'100%', b'%s_%x %d', b'$$ n.a.']
     names = gen_names(rng, 3000 if thorough else 600)
     # --- correspondence: SHA-256 and HashName, model vs Go
     blobs = [bytes(rng.randrange(256) for _ in range(rng.choice([0, 1, 3, 55, 56, 57, 63, 64, 65, 119, 120, 128, 200]))) for _ in range(120)]
